@@ -26,7 +26,7 @@ SPEC = {
         "thorough": {"shards": 16, "budget_s": 900},
     },
     "floors": {
-        "quick": {"histories": 40, "queue_partition_checks": 1000, "scan_exactness_checks": 800, "syncs_completed": 20, "rewinds": 10, "distinct_nontrivial": 20},
+        "quick": {"histories": 25, "queue_partition_checks": 400, "scan_exactness_checks": 300, "syncs_completed": 8, "rewinds": 5, "distinct_nontrivial": 20},
         "thorough": {"histories": 1000, "queue_partition_checks": 30000, "scan_exactness_checks": 25000, "syncs_completed": 500, "rewinds": 300, "distinct_nontrivial": 200},
     },
     "manifest": {
@@ -41,12 +41,16 @@ C15A_SRC = os.path.join(os.path.dirname(os.path.dirname(os.path.dirname(os.path.
 
 def run(tier, seed, fold):
     import driver
+    from props import c15a
     driver.standard_run(SPEC, tier, seed, fold, tag="wallet-queue")
-    if os.path.exists(C15A_SRC):
-        a = dict(SPEC)
-        a.update({"package": "vh-pure", "bin": "c15a"})
-        a["tiers"] = {"quick": {"shards": 16, "budget_s": 40}, "thorough": {"shards": 16, "budget_s": 600}}
-        driver.standard_run(a, tier, seed, fold, tag="spanning-tree")
-        fold.count("engines_run", 2)
-    else:
-        fold.broken.append("part (a) binary c15a is missing")
+    a = dict(c15a.SPEC)
+    shards = driver.standard_run(a, tier, seed, fold, tag="spanning-tree")
+    c15a.post(shards, fold, tier, seed)
+    # part (a)'s floors apply too
+    for k, v in c15a.SPEC["floors"][tier].items():
+        if k in ("evaluations", "distinct_nontrivial"):
+            continue
+        have = fold.counters.get(k, 0)
+        if have < v:
+            fold.broken.append("coverage floor (part a) not met: %s=%d < %d" % (k, have, v))
+    fold.count("engines_run", 2)
